@@ -115,13 +115,15 @@ theorem C11_no_keepalive_before_connected (sz : Sizes) (c : Conn) (t delay : Int
   simp only [hq, hr, sortBySeq, List.foldr, packResend, packNew, pktType]
   simp [hst]
 
-/-- the hello handler queues at most the one SERVER_HELLO, and only when the hello decoded with
-the right version -/
+/-- the hello handler queues at most the one SERVER_HELLO, only when the hello decoded with the
+right version, and - **no amplification** (as repaired) - only when that reply is not longer than
+the hello it answers: both travel in the same CRC form with the same 26 bytes of framing, so the
+datagram sent is never larger than the datagram received, for every MTU and every padding -/
 theorem C11_hello_reply_once (H : Hs) (tok : Nat) (c : Conn) (t : Int) (data : Bytes) :
     (serverClientHello H tok c t data).1.outgoing = c.outgoing ∨
     (H.parseClientHello data = .ok 1 ∧
       ∃ m, (serverClientHello H tok c t data).1.outgoing = c.outgoing ++ [m] ∧ m.ty = .serverHello ∧
-        m.payload = (H.serverReply data tok).2) := by
+        m.payload = (H.serverReply data tok).2 ∧ m.payload.length ≤ data.length) := by
   unfold serverClientHello
   cases hp : H.parseClientHello data with
   | error e => left; rfl
@@ -129,11 +131,20 @@ theorem C11_hello_reply_once (H : Hs) (tok : Nat) (c : Conn) (t : Int) (data : B
     simp only
     by_cases hv : v = 1
     · subst hv
-      right
-      refine ⟨rfl, ?_⟩
-      simp only [ne_eq, not_true_eq_false, if_false, sendType]
-      split <;> exact ⟨_, rfl, rfl, rfl⟩
+      by_cases hlen : (H.serverReply data tok).2.length > data.length
+      · left; simp [hlen]
+      · right
+        refine ⟨rfl, ?_⟩
+        simp only [ne_eq, not_true_eq_false, if_false, hlen, sendType]
+        split <;> exact ⟨_, rfl, rfl, rfl, by simp only; omega⟩
     · left; simp [hv]
+
+/-- a hello that is shorter than the reply it asks for leaves the connection without key, token
+and reply (an MTU too small for the padding to cover the server hello cannot connect) -/
+theorem C11_short_hello_not_answered (H : Hs) (tok : Nat) (c : Conn) (t : Int) (data : Bytes)
+    (hv : H.parseClientHello data = .ok 1) (hlen : (H.serverReply data tok).2.length > data.length) :
+    serverClientHello H tok c t data = ({ c with token := 0, key := none }, [], none) := by
+  simp [serverClientHello, hv, hlen]
 
 /-! ### non-vacuity -/
 
